@@ -270,6 +270,11 @@ impl DepthFirstSearch {
         // the solutions of sub-goals proved further down the recursion).
         let mut found_here = false;
 
+        // Facts as they were with the first solution in place. While looking for further
+        // solutions every solution is rolled back again; the first one is handed back to
+        // the caller at the end, so that a provable goal holds in the returned facts.
+        let mut first_solution_facts: Option<std::collections::HashMap<String, Value>> = None;
+
         // Try each candidate rule
         for rule_name in goal.candidate_rules.clone() {
             self.path.push(rule_name.clone());
@@ -305,6 +310,9 @@ impl DepthFirstSearch {
                         }
 
                         // Otherwise (max_solutions > 1 and not enough yet), rollback and continue
+                        if first_solution_facts.is_none() {
+                            first_solution_facts = Some(facts.get_all_facts());
+                        }
                         facts.rollback_undo_frame();
                         self.path.pop();
                         continue;
@@ -338,6 +346,9 @@ impl DepthFirstSearch {
                                     }
 
                                     // Otherwise, rollback and continue searching
+                                    if first_solution_facts.is_none() {
+                                        first_solution_facts = Some(facts.get_all_facts());
+                                    }
                                     facts.rollback_undo_frame();
                                     self.path.pop();
                                     continue;
@@ -387,6 +398,13 @@ impl DepthFirstSearch {
 
         // If we found at least one solution for this goal (even if less than max_solutions), consider it proven
         if found_here {
+            if let Some(kept) = first_solution_facts {
+                for (key, value) in kept {
+                    if facts.get(&key).as_ref() != Some(&value) {
+                        facts.set(&key, value);
+                    }
+                }
+            }
             goal.status = GoalStatus::Proven;
             // For negated goals, finding a proof means negation fails
             return !goal.is_negated;
